@@ -143,6 +143,8 @@ def lon_specs(tier):
     for n in (1, 2, 3):
         for t in itertools.combinations(specs[: 8 if tier == 'quick' else 14], n):
             out.append(list(t))
+    # more than ten arrays: files 0.npy .. 11.npy must come back in numeric, not lexical, order
+    out.append([{'dtype': 'int64', 'shape': [1], 'fill': 'ramp', 'layout': 'C'} if i % 2 else {'dtype': 'float32', 'shape': [i], 'fill': 'ramp', 'layout': 'C'} for i in range(12)])
     return out
 
 
